@@ -16,6 +16,7 @@ enum Kind : int {
   K_LOCK_LOAD = 1, K_LOCK_CAS = 2, K_LOCK_STORE = 3, K_FIELD_LOAD = 4, K_FIELD_STORE = 5,
   K_SPIN = 6, K_QS_LOAD = 7, K_QS_RMW = 8, K_QO_LOAD = 9, K_QO_RMW = 10, K_QO_LINK = 11,
   K_FAKE_LOAD = 12, K_FAKE_STORE = 13,
+  K_AUTO_LOAD = 14, K_AUTO_STORE = 15, K_AUTO_RMW = 16,  // compiler-inserted (atomic_shim.cpp, hookall builds)
   // harness-side kinds
   K_ALLOC = 20, K_FREE = 21, K_MUTEX_LOCK = 22, K_MUTEX_UNLOCK = 23, K_OP = 24, K_HARNESS = 25,
   K_THREAD_START = 26, K_THREAD_END = 27, K_BLOCKED = 28, K_KIND_MAX = 32
